@@ -184,6 +184,7 @@ class State:
         self.stack = [bytes(x) for x in stack]; self.alt = []; self.vf = []
         self.flags = flags; self.sv = sv; self.ck = checker or NullChecker(); self.z = allow_disabled
         self.nops = 0
+        self.mock = set()
         self.execdata = {'annex': None, 'leaf': None, 'codesep': 0xffffffff, 'weight': None}
         self.opcode_pos = 0
     def snap(self):
@@ -337,8 +338,14 @@ def step(st, script, entry, codesep_start):
             ok = True
             while ok and ns > 0:
                 sig = stack[-isig]; key = stack[-ikey]
-                check_sig_encoding(sig, flags); check_pubkey_encoding(key, flags, sv)
-                good = st.ck.check_ecdsa(sig, key, sc, sv)
+                if (sig, key) in st.mock: good = True
+                elif st.mock and any(k == key for _, k in st.mock):
+                    # a listed key offered another signature inside CHECKMULTISIG: the statement only demands that it is not accepted on the
+                    # strength of the option; the tool answers 'no match' without encoding checks, and no more is demanded here
+                    good = False
+                else:
+                    check_sig_encoding(sig, flags); check_pubkey_encoding(key, flags, sv)
+                    good = st.ck.check_ecdsa(sig, key, sc, sv)
                 if good: isig += 1; ns -= 1
                 ikey += 1; nk -= 1
                 if ns > nk: ok = False
@@ -360,6 +367,7 @@ def step(st, script, entry, codesep_start):
 
 def checksig(st, sig, key, script, codesep_start):
     sv, flags = st.sv, st.flags
+    if (sig, key) in st.mock: return True     # --pretend-valid pair: succeeds regardless of context or encoding rules
     if sv in (BASE, WITNESS_V0):
         sc = script[codesep_start:]
         if sv == BASE:
@@ -396,11 +404,12 @@ class _Count(list):
     def __len__(self): return self.n
 
 
-def run(script, stack, flags, sv, allow_disabled=False, checker=None, execdata=None, successor=None, keep_trace=True):
+def run(script, stack, flags, sv, allow_disabled=False, checker=None, execdata=None, successor=None, keep_trace=True, mock=None):
     """returns (trace, outcome) ; outcome = ('ok', final) | ('err', CODE, index) | ('exc', msg, index) | ('setup', CODE)"""
     if sv in (BASE, WITNESS_V0) and len(script) > MAX_SCRIPT: return [], ('setup', 'SCRIPT_SIZE')   # BIP342: no size limit in tapscript
     st = State(stack, flags, sv, checker, allow_disabled)
     run.last_state = st
+    if mock: st.mock = set(mock)
     if execdata: st.execdata.update(execdata)
     trace = [] if keep_trace else _Count()
     snap = st.snap if keep_trace else (lambda: None)
